@@ -231,6 +231,36 @@ let trace_token (h : hist) (q : string) : string =
     let before = stsc_run h.stsc_start (take i h.stsc_calls) in
     cls (stsc_call_res before (L.nth h.stsc_calls i)) ^ "/" ^ stsc_state (stsc_run h.stsc_start (take (i + 1) h.stsc_calls))
 
+(* ---- the hypotheses of the round-4 theorems EVALUATED on the cases of the run (valid stream) ----
+   C09_builder_consistent_rows: ids_ok, rows_ok, first chunk 1, the runs hold N samples, N + 1 and C + 1 uint32
+   (no raw_ok).  C09_time_code: sample number 1..N, timescale > 0, floor(10^9 t / ts) an int64; its conclusion
+   (model = S_time_code of the expansion's decode time) is evaluated too. *)
+let hyp_rows = ref 0 and hyp_rows_n = ref 0 and hyp_tc = ref 0 and hyp_tc_n = ref 0
+let rows_hyp (tb : tables) (h : hist) : bool =
+  let t = stsc_table h.stsc_rows0 h.stsc_calls in
+  let c = C09Spec.nchunks tb and n = C09Spec.nsamples tb in
+  let one = n_of_int 1 in
+  C09RowsModel.ids_ok t && rows_ok t c
+  && (match t with ((fc, _), _) :: _ -> fc = one | [] -> false)
+  && L.fold_left BinNat.N.add BinNums.N0 (C09Spec.chunk_counts (C09Spec.coq_S_entries t) c) = n
+  && C09Spec.is_u32 (BinNat.N.add n one) && C09Spec.is_u32 (BinNat.N.add c one)
+let fits_i64 (s : string) : bool =
+  let m = "9223372036854775808" in
+  S.length s > 0 && s.[0] <> '-' && (S.length s < S.length m || (S.length s = S.length m && compare s m < 0))
+(* Some true / Some false: hypotheses hold and the conclusion is true / false; None: hypotheses do not hold *)
+let tc_hyp (tb : tables) (q : string) : bool option =
+  match split_on ':' q with
+  | ["tc"; n; ts] ->
+    let ni = int_of_string n and tsi = int_of_string ts in
+    if ni < 1 || ni > int_of_n (C09Spec.nsamples tb) || tsi < 1 then None else
+      (match C09Spec.coq_S_decode_time tb (n_of_int ni) with
+       | Some t ->
+         let want = C09TimeCodeModel.coq_S_time_code t (n_of_int tsi) in
+         if not (fits_i64 (dec_of_zbig want)) then None
+         else Some (C09TimeCodeModel.stts_get_time_code tb.t_stts_count tb.t_stts_delta (n_of_int ni) (n_of_int tsi) = Ok want)
+       | None -> None)
+  | _ -> None
+
 let () =
   if Array.length Sys.argv > 1 && Sys.argv.(1) = "pinned" then pinned := true;
   iter_lines (fun line ->
@@ -256,12 +286,22 @@ let () =
              Printf.printf "MISMATCH %s builder-hypotheses model=false (generator promised a history within C09_builder_consistent)\n" id
            else begin
              let bad = ref None in
+             if kind = "V" then begin
+               incr hyp_rows_n; if rows_hyp tb h then incr hyp_rows
+             end;
              L.iter (fun tok ->
                  if !bad = None then
                    match S.index_opt tok '=' with
                    | None -> ()
                    | Some k ->
                      let q = S.sub tok 0 k and r = S.sub tok (k + 1) (S.length tok - k - 1) in
+                     if kind = "V" && S.length q > 3 && S.sub q 0 3 = "tc:" && not !pinned then begin
+                       incr hyp_tc_n;
+                       match tc_hyp tb q with
+                       | Some true -> incr hyp_tc
+                       | Some false -> bad := Some (q, "C09_time_code-evaluates-false", r)
+                       | None -> ()
+                     end;
                      let m = if q = "pu" then pure_token tb (L.tl toks)
                        else if S.length q > 2 && (S.sub q 0 2 = "bc" || S.sub q 0 2 = "bs")
                        then trace_token h q else run_query tb q in
@@ -271,4 +311,5 @@ let () =
              | None -> Printf.printf "OK %s\n" id
              | Some (q, m, r) -> Printf.printf "MISMATCH %s %s model=%s impl=%s\n" id q m r
            end)
-      | _ -> Printf.printf "BADLINE %s\n" (S.sub line 0 (min 80 (S.length line))))
+      | _ -> Printf.printf "BADLINE %s\n" (S.sub line 0 (min 80 (S.length line))));
+  Printf.printf "OK #hyp rows=%d/%d tc=%d/%d\n" !hyp_rows !hyp_rows_n !hyp_tc !hyp_tc_n
